@@ -279,6 +279,37 @@ def r151_r154(repo, ctx, purity):
             ctx.check(not bad, 'R15.4', SF, f'ShapeDescriptionBase.{q}', b, 'the result buffer is created as a floating-point array of the argument\'s shape',
                       'the result buffer inherits the dtype of the aspect-ratio argument: for integer-typed aspect ratios the factors are truncated to integers', construct=U.src(b))
     ctx.floor('R15.4', nb, 3)
+    # R15.4 (whole file): a *_like allocation without dtype whose prototype is (derived from) a parameter takes the caller's dtype
+    nf = 0
+    for qual, f in repo.functions(SF):
+        nf += 1
+        pn = set(U.params(f)) - {'self'}
+        derived = set(pn)
+        for s in ast.walk(f):
+            if isinstance(s, ast.Assign) and len(s.targets) == 1 and isinstance(s.targets[0], ast.Name) and isinstance(s.value, ast.Call) \
+                    and (U.call_name(s.value) or '') in ('np.atleast_1d', 'np.array', 'np.asarray', 'np.copy', 'np.squeeze', 'np.ravel') \
+                    and s.value.args and isinstance(s.value.args[0], ast.Name) and s.value.args[0].id in derived and U.kwarg(s.value, 'dtype') is None:
+                derived.add(s.targets[0].id)
+        for c in U.calls(f):
+            nm = U.call_name(c) or ''
+            if nm.startswith('np.') and nm.endswith('_like') and U.kwarg(c, 'dtype') is None and c.args:
+                if nm != 'np.full_like':
+                    # zeros/ones/empty_like truncate only when values are stored INTO the buffer afterwards
+                    holder = [s.targets[0].id for s in ast.walk(f) if isinstance(s, ast.Assign) and len(s.targets) == 1 and isinstance(s.targets[0], ast.Name)
+                              and any(x is c for x in ast.walk(s.value))]
+                    stored = any(isinstance(s2, (ast.Assign, ast.AugAssign)) and isinstance((s2.targets[0] if isinstance(s2, ast.Assign) else s2.target), ast.Subscript)
+                                 and isinstance((s2.targets[0] if isinstance(s2, ast.Assign) else s2.target).value, ast.Name)
+                                 and (s2.targets[0] if isinstance(s2, ast.Assign) else s2.target).value.id in holder for s2 in ast.walk(f))
+                    if not stored:
+                        continue
+                proto = c.args[0]
+                while isinstance(proto, ast.Call) and (U.call_name(proto) or '') in ('np.atleast_1d', 'np.array', 'np.asarray', 'np.copy', 'np.squeeze', 'np.ravel') and proto.args \
+                        and U.kwarg(proto, 'dtype') is None:
+                    proto = proto.args[0]
+                if isinstance(proto, ast.Name) and proto.id in derived:
+                    ctx.violation('R15.4', SF, qual, c, f'{nm} without dtype takes the dtype of the caller\'s argument {proto.id}: for integer-typed radii / aspect ratios the stored value is truncated to an integer, so scalar/array and int/float calls disagree',
+                                  construct=U.src(c)[:100])
+    ctx.ok('R15.4', SF, '', 0, f'{nf} functions: no *_like allocation inherits the dtype of a caller-supplied array', construct='*_like allocations')
 
 
 def r155(repo, ctx, index):
